@@ -303,6 +303,11 @@ func genGraphCases(prop string, seed int64, n int, thorough bool) []GCase {
 					c.Ops = append(c.Ops, GOp{Kind: "detect"})
 				}
 				for k := 1 + rnd.Intn(3); k > 0; k-- {
+					if rnd.Intn(3) == 0 {
+						// or repaired by replacing a node with a provider that depends on nothing (a bulk addition again)
+						c.Ops = append(c.Ops, GOp{Kind: "deferred", U: rnd.Intn(np)}, GOp{Kind: "detect"})
+						continue
+					}
 					c.Ops = append(c.Ops, GOp{Kind: "remove", U: rnd.Intn(np)}, GOp{Kind: "detect"})
 				}
 				cases = append(cases, c)
